@@ -88,6 +88,10 @@ pub struct Connection {
     
     /// Client name (set via CLIENT SETNAME)
     pub name: Option<String>,
+    
+    /// Requests that arrived behind a blocking command which is still waiting: they are carried
+    /// out, in order, once the connection is no longer blocked
+    pub deferred_frames: std::collections::VecDeque<RespFrame>,
 }
 
 impl Connection {
@@ -115,6 +119,7 @@ impl Connection {
             transaction_state: TransactionState::default(),
             is_monitoring: false,
             name: None,
+            deferred_frames: std::collections::VecDeque::new(),
         })
     }
     
@@ -232,6 +237,22 @@ impl Connection {
         match self.stream.peek(&mut probe) {
             Ok(0) => true,
             Ok(_) => false,
+            Err(e) if e.kind() == ErrorKind::WouldBlock || e.kind() == ErrorKind::Interrupted => false,
+            Err(_) => true,
+        }
+    }
+    
+    /// Has the peer of a blocked connection gone away? A blocked connection is not processed, but
+    /// what it sends is still taken off the socket and kept for later: bytes sent after the
+    /// blocking command would otherwise hide the end-of-file behind them for ever.
+    pub fn blocked_peer_closed(&mut self) -> bool {
+        let mut buf = [0u8; 8192];
+        match self.stream.read(&mut buf) {
+            Ok(0) => true,
+            Ok(n) => {
+                self.parser.feed(&buf[..n]);
+                false
+            }
             Err(e) if e.kind() == ErrorKind::WouldBlock || e.kind() == ErrorKind::Interrupted => false,
             Err(_) => true,
         }
